@@ -5,7 +5,6 @@ package main
 import (
 	"go/token"
 	"go/types"
-	"strings"
 
 	"golang.org/x/tools/go/ssa"
 )
@@ -46,22 +45,29 @@ func (w *World) abstractInstant(u value) value {
 	return structure{uint64(0), u, (*value)(nil)}
 }
 
-// clockInputLabel marks the inputs created by time.Now: natively the clock is not read from the replay vector, so
-// these inputs are left out of vectors (makeVector, violationVector) to keep the vf* inputs aligned.
-const clockInputLabel = "time.Now()"
-
-// schedInputPrefix marks the inputs created by chooseN (scheduler, select and map-order choices): the native run
-// does not read them from the vector either.
-const schedInputPrefix = "#"
-
-// nativeInput reports whether the native shim consumes a vector slot for this input (i.e. it came from a vf* call).
-func nativeInput(ir InputRec) bool {
-	return ir.Label != clockInputLabel && !strings.HasPrefix(ir.Label, schedInputPrefix)
-}
-
 func (w *World) abstractNow() value {
-	t := w.newInput(clockInputLabel, 64)
+	t := w.newInput("now", 64)
+	w.run.inputs[len(w.run.inputs)-1].Env = true // natively time.Now is the real clock: it does not read the vector
 	tt := w.tt
+	if r := w.run; r.cursor >= len(r.trail) {
+		// Give the fresh variable a witness value that satisfies the constraints below (it occurs in no other
+		// constraint yet), so that the assumptions need no solver call. Code that reads the clock often
+		// (webdav memFS stamps every write) otherwise pays one query per time.Now.
+		if _, ok := r.witness[t.Name]; !ok {
+			v := uint64(1 << 40)
+			if w.clockLast != nil {
+				if lv := Eval(w.clockLast, r.witness, r.evalMemo); int64(lv) > int64(v) {
+					v = lv
+				}
+			}
+			nm := make(Model, len(r.witness)+1)
+			for k, x := range r.witness {
+				nm[k] = x
+			}
+			nm[t.Name] = v
+			r.witness = nm
+		}
+	}
 	lo := tt.Const(1<<40, 64)
 	if w.clockLast != nil {
 		w.assume(fromTerm(tt.Cmp(OpSle, w.clockLast, t)))
